@@ -470,6 +470,10 @@ func (a Int) divMod(b Int) (Object, Object, error) {
 	if b == 0 {
 		return nil, nil, divisionByZero
 	}
+	if a == IntMin && b == -1 {
+		// -IntMin doesn't fit in an Int so use the BigInt path
+		return (*BigInt)(big.NewInt(int64(a))).divMod((*BigInt)(big.NewInt(int64(b))))
+	}
 	// Can't overflow
 	result, remainder := Int(a/b), Int(a%b)
 	// Implement floor division
